@@ -2,6 +2,7 @@ package pongo2
 
 import (
 	"bytes"
+	"reflect"
 )
 
 type tagIfchangedNode struct {
@@ -34,6 +35,12 @@ func (node *tagIfchangedNode) Execute(ctx *ExecutionContext, writer TemplateWrit
 			val, err := expr.Evaluate(ctx)
 			if err != nil {
 				return err
+			}
+			if val.val.IsValid() && val.val.CanInterface() {
+				// Remember a copy: the resolved value may still point into the
+				// watched object (e. g. a struct field like forloop.First), which
+				// will have changed by the time we compare.
+				val = &Value{val: reflect.ValueOf(val.val.Interface()), safe: val.safe}
 			}
 			nowValues = append(nowValues, val)
 		}
